@@ -10,7 +10,7 @@ from . import tlc
 CFG_DEFAULTS = dict(
     routine="?", nenvs=1, budget=-1, start=0, eplimit=0, warmlearn=-1, warmact=-1, explore_only_in_warmup=False,
     ulpk=0, policy_probe=False, check_act=True, ret_applicable=False, trained=[], targets=[], frozen=[], autoreset=False,
-    epsilon4=-1, rules=[], segment="add", check_term=True, check_next=True, check_bounds=True, pairs=[], hard_pairs=[], copy_groups=[],
+    epsilon4=-1, eps_switch=-1, rules=[], segment="add", check_term=True, check_next=True, check_bounds=True, pairs=[], hard_pairs=[], copy_groups=[],
 )
 RULE_DEFAULTS = dict(comps=[], counter="always", mod=1, rem=0, after=0, needs_sample=True)
 EV_DEFAULTS = dict(
